@@ -1,9 +1,13 @@
 ----------------------------- MODULE MC_Security -----------------------------
 EXTENDS Security, Json
 SetSeq(S) == LET RECURSIVE go(_) go(T) == IF T = {} THEN <<>> ELSE LET x == CHOOSE y \in T : TRUE IN <<x>> \o go(T \ {x}) IN go(S)
+\* one vector per finished run: the configuration, the model's run and - for the judge - the oracle's terms
+\* (allowed: the credentials Reading admits per used scheme; refuse: MustRefuse; wire: what the sender puts on the wire)
 Emit == pc = "done" =>
   PrintT(<<"VEC", ToJson([cfg |-> cfg, eff |-> Eff, outcome |-> outcome,
-                          pred |-> [invoked |-> invoked, calls |-> calls, err |-> err, used |-> SetSeq(UsedSchemes(Eff))]])>>)
+                          pred |-> [invoked |-> invoked, calls |-> calls, err |-> err, used |-> SetSeq(Used), rejected |-> rejected,
+                                    refuse |-> MustRefuse, wire |-> wire,
+                                    allowed |-> [s \in Schemes |-> IF s \in Used THEN SetSeq(Reading(s)) ELSE <<>>]]])>>)
 \* keep the level product small: API level takes few values in the exhaustive runs
 Small == cfg.api.idx \in {0, 1, 6} /\ cfg.svc.idx \in {0, 2, 7}
 =============================================================================
